@@ -112,6 +112,16 @@ PROOFS += [
         mutants=[('add_not_counted', r'case IARF_ADD:\n   case IARF_FORCE:\n      coldiff\+\+;', 'case IARF_FORCE:\n      coldiff++;', 'postcondition')]),
 ]
 
+PROOFS.append(Proof('space_text_apply', impl='contracts/C19/sptext.impl.cpp', spec='contracts/C19/space2.spec.c', harness='h_space_text_apply', plain=True, no_contract=True,
+                    defines=['SPTEXT_VC'], canaries=3, unwind=6, slice_formula=True, timeout=900, nondet_static='.*(optv_|cpd|g_nav_fuel|g_buf_).*',
+                    cbmc_flags=['--bounds-check', '--pointer-check', '--div-by-zero-check', '--undefined-shift-check', '--unwinding-assertions'],
+                    expect=['postcondition: space_text'], functions=['space.cpp:space_text (core of one iteration, sliced as a fragment: safety check + switch on the decision)'],
+                    assumed=['do_space_ensured: its proved contract (decision of do_space with the ADD bit forced for PCF_FORCE_SPACE)', 'find_punctuator: no match, or a tag of 1..6 characters',
+                             'CharTable::IsKw1/IsKw2, Chunk::IsString, UncText::startswith answer arbitrarily'],
+                    note='direct VC; int <-> size_t arithmetic on columns is the code\'s own (signed overflow check off: `column += min_sp` mixes int and size_t by design)',
+                    mutants=[('angle_close_by_text', r'&& next->Is\(CT_ANGLE_CLOSE\)\)', '&& next->IsString(">"))', 'postcondition'),
+                             ('words_not_forced', r'(back-to-back words need a space.*?\n.*?\n\s*)pc->SetFlagBits\(PCF_FORCE_SPACE\);', r'\1;', 'postcondition'),
+                             ('force_adds_two', r'column \+= min_sp;  // add exactly the specified number of spaces', 'column += min_sp + 1;', 'postcondition')]))
 import replay_lib  # noqa: E402
 sys.path.insert(0, os.path.join(os.path.dirname(os.path.abspath(__file__)), '..', 'shared'))
 import outtext_proofs  # noqa: E402
@@ -151,8 +161,9 @@ EXPLANATION = ('Kernel of C19. do_space() - the real 3400-line decision function
                'sp_before_nl_cont, is checked where it is applied: in one iteration of output_text().')
 K = ['K1 do_space: rule logged <-> option value returned, for all 400+ IARF options at once; result always one of the four values; min_sp assigned',
      'K2 ensure_force_space, do_space_ensured, space_needed, space_col_align: meaning of the four values in columns',
+     'K3 space_text (core of one iteration): the decision is applied to the column of the following chunk exactly as the property says (Force: exactly max(1,min_sp) blanks; Remove: none; Add: at least max(1,min_sp); Ignore: the gap of the input)',
      'K4 output_text (one iteration): the column of a backslash-newline obeys sp_before_nl_cont (Remove: none, Force: exactly one, Add: at least one, Ignore: the original spacing)']
-G = ['space_text() applies the decision to the columns of the following chunk (350-line loop): NOT under contract; the log really prints the recorded rule (log_rule macro replaced by a ghost recorder)',
+G = ['space_text(): only the core of the loop body (safety check + switch on the decision) is under contract (K3); the trailing-comment adjustment after the switch and next->SetColumn(column) are read, not proved; the log really prints the recorded rule (log_rule macro replaced by a ghost recorder)',
      'chunk navigation inside do_space (GetNext/GetPrev/...) returns an arbitrary chunk: over-approximation; termination of the two chunk-list walks is not proved',
      'later passes (align, width) do not change intra-line gaps - the property excludes them',
      'known finding: rule sp_bool with pos_bool != ignore (see known_findings.txt)']
